@@ -1,3 +1,4 @@
 import CohdlVerif.Model.DriverLoop
--- model driver of property C02 (stub: no model entry points yet)
-def main : IO Unit := CohdlVerif.driverLoop (fun _ => "bad-op")
+import CohdlVerif.Model.C02Driver
+-- model driver of property C02:  `type EXPR` | `eval EXPR (v..) (v..)..` | `lower EXPR`
+def main : IO Unit := CohdlVerif.driverLoop CohdlVerif.C02.handle
